@@ -46,37 +46,47 @@ theorem C14_encode (chunks : List (List UInt8)) :
   rw [finish_spec e hs, hp []]
   simp [pendingText, carry, Enc.new]
 
-/-- Decoding, refinement form: for every plain byte string `d`, every schedule of the underlying reader (short
-    reads, `Interrupted`) and every sequence of destination buffer sizes, reading the RFC 4648 text of `d`
+/-- Decoding, refinement form: for every plain byte string `d`, every schedule of the underlying reader (any
+    finite sequence of per-call maxima and `Interrupted` failures, then at most `tail` bytes per call for ever —
+    e.g. one byte at a time) and every sequence of destination buffer sizes, reading the RFC 4648 text of `d`
     through the decoder is indistinguishable from reading `d` itself from memory with the same buffers. -/
-theorem C14_decode (d : List UInt8) (sched sizes : List Nat) :
-    readAll (Dec.new ⟨rfcEncode d, sched⟩) sizes = sliceReadAll d sizes :=
-  readAll_rfc sizes _ d [] (DInv_new d sched)
+theorem C14_decode (d : List UInt8) (sched : List Nat) (tail : Nat) (sizes : List Nat) :
+    readAll (Dec.new ⟨rfcEncode d, sched, tail⟩) sizes = sliceReadAll d sizes :=
+  readAll_rfc sizes _ d [] (DInv_new d sched tail)
 
 /-- Decoding, round-trip form: as soon as the caller has offered buffers for at least `|d|` bytes and then one
     more non-empty buffer, it holds exactly `d` and has seen the end of input — whatever the schedule. -/
-theorem C14_decode_all (d : List UInt8) (sched pre post : List Nat) (s : Nat)
+theorem C14_decode_all (d : List UInt8) (sched : List Nat) (tail : Nat) (pre post : List Nat) (s : Nat)
     (hs : 0 < s) (hpre : d.length ≤ pre.sum) :
-    readAll (Dec.new ⟨rfcEncode d, sched⟩) (pre ++ s :: post) = .eof d := by
+    readAll (Dec.new ⟨rfcEncode d, sched, tail⟩) (pre ++ s :: post) = .eof d := by
   rw [C14_decode, sliceReadAll_complete pre d [] s post hs hpre]; rfl
 
-/-- the hypotheses of `C14_decode_all` are met e.g. by seven one-byte reads of a 6-byte string -/
-example : (0 : Nat) < 1 ∧ [102, 111, 111, 98, 97, 114].length ≤ (List.replicate 6 1).sum := by decide
+/-- the hypotheses of `C14_decode_all` are met e.g. by seven one-byte reads of the 6-byte string "foobar"
+    (text `Zm9vYmFy` by the test vector above), here through a reader that is interrupted and delivers one or
+    two bytes per call -/
+example : readAll (Dec.new ⟨rfcEncode [102, 111, 111, 98, 97, 114], [1, 0, 2, 1, 0, 0], 1⟩)
+    (List.replicate 6 1 ++ 1 :: []) = .eof [102, 111, 111, 98, 97, 114] :=
+  C14_decode_all _ _ _ _ _ _ (by decide) (by decide)
 
 /-- encode then decode, any write partition, any reader schedule, any (sufficient) buffer sizes -/
-theorem C14_roundtrip (chunks : List (List UInt8)) (sched pre post : List Nat) (s : Nat)
+theorem C14_roundtrip (chunks : List (List UInt8)) (sched : List Nat) (tail : Nat) (pre post : List Nat) (s : Nat)
     (hs : 0 < s) (hpre : chunks.flatten.length ≤ pre.sum) :
     ∃ text, encodeChunks chunks = .ok text ∧
-      readAll (Dec.new ⟨text, sched⟩) (pre ++ s :: post) = .eof chunks.flatten :=
-  ⟨_, C14_encode chunks, C14_decode_all _ sched pre post s hs hpre⟩
+      readAll (Dec.new ⟨text, sched, tail⟩) (pre ++ s :: post) = .eof chunks.flatten :=
+  ⟨_, C14_encode chunks, C14_decode_all _ sched tail pre post s hs hpre⟩
+
+/-- the hypotheses of `C14_roundtrip`: "foobar" written as "f", "", "ooba", "r", read back in buffers of 4, 4, 1 -/
+example : ∃ text, encodeChunks [[102], [], [111, 111, 98, 97], [114]] = .ok text ∧
+    readAll (Dec.new ⟨text, [3, 0], 1⟩) ([4, 4] ++ 1 :: []) = .eof [102, 111, 111, 98, 97, 114] :=
+  C14_roundtrip [[102], [], [111, 111, 98, 97], [114]] _ _ _ _ _ (by decide) (by decide)
 
 /-- Text whose length is not a multiple of four (arbitrary bytes): the caller never sees a clean end of input
     (no silent truncation) and no panic; it sees the error at the latest when it has offered more non-empty
     buffers than the text has bytes. -/
-theorem C14_length_error (t : List UInt8) (sched sizes : List Nat) (h : t.length % 4 ≠ 0) :
-    (∀ b, readAll (Dec.new ⟨t, sched⟩) sizes ≠ .eof b) ∧ readAll (Dec.new ⟨t, sched⟩) sizes ≠ .panic ∧
-    (t.length < (sizes.filter (0 < ·)).length → ∃ b, readAll (Dec.new ⟨t, sched⟩) sizes = .error b) := by
-  rcases readAll_residue sizes (Dec.new ⟨t, sched⟩) [] (TInv_new _) (by simpa [phi, Dec.new] using h) with
+theorem C14_length_error (t : List UInt8) (sched : List Nat) (tail : Nat) (sizes : List Nat) (h : t.length % 4 ≠ 0) :
+    (∀ b, readAll (Dec.new ⟨t, sched, tail⟩) sizes ≠ .eof b) ∧ readAll (Dec.new ⟨t, sched, tail⟩) sizes ≠ .panic ∧
+    (t.length < (sizes.filter (0 < ·)).length → ∃ b, readAll (Dec.new ⟨t, sched, tail⟩) sizes = .error b) := by
+  rcases readAll_residue sizes (Dec.new ⟨t, sched, tail⟩) [] (TInv_new _) (by simpa [phi, Dec.new] using h) with
     ⟨b, hb⟩ | ⟨⟨b, hb⟩, hc⟩
   · rw [hb]; exact ⟨fun _ => by simp, by simp, fun _ => ⟨b, rfl⟩⟩
   · rw [hb]
@@ -84,14 +94,15 @@ theorem C14_length_error (t : List UInt8) (sched sizes : List Nat) (h : t.length
     simp only [positives, psi, Dec.new, List.length_nil, Nat.zero_sub, Nat.zero_add] at hc
     omega
 
-/-- the hypothesis of `C14_length_error` is met by the 7-byte text `Zm9vYmF` -/
-example : [90, 109, 57, 118, 89, 109, 70].length % 4 ≠ 0 := by decide
+/-- the hypotheses of `C14_length_error` are met by the 7-byte text `Zm9vYmF` read with eight one-byte buffers -/
+example : ∃ b, readAll (Dec.new ⟨[90, 109, 57, 118, 89, 109, 70], [1, 0, 2], 1⟩) (List.replicate 8 1) = .error b :=
+  (C14_length_error _ _ _ _ (by decide)).2.2 (by decide)
 
 /-- Totality: for arbitrary bytes as text, any schedule and any sequence of buffer sizes — errors included, the
     decoder staying in use after them — no `read` panics: every table index, every buffer slice and every
     copy is in range. (The encoder's freedom from panics is part of `C14_encode`.) -/
-theorem C14_total (t : List UInt8) (sched sizes : List Nat) :
-    (∀ r ∈ readSeq (Dec.new ⟨t, sched⟩) sizes, r ≠ .panic) ∧ readAll (Dec.new ⟨t, sched⟩) sizes ≠ .panic := by
+theorem C14_total (t : List UInt8) (sched : List Nat) (tail : Nat) (sizes : List Nat) :
+    (∀ r ∈ readSeq (Dec.new ⟨t, sched, tail⟩) sizes, r ≠ .panic) ∧ readAll (Dec.new ⟨t, sched, tail⟩) sizes ≠ .panic := by
   refine ⟨readSeq_no_panic sizes _ (TInv_new _), ?_⟩
   exact readAll_no_panic sizes _ [] (TInv_new _)
 
